@@ -59,11 +59,12 @@ def write_replay(pid, oid, payload):
     return path
 
 
-def run_harness(pid, tier, seed, extra=None, timeout=3600):
+def run_harness(pid, tier, seed, extra=None, timeout=3600, monitor=False):
     """Run the run-time harness (real code, /venv python).  -> dict or {'error':...}"""
     cmd = [VENV_PY, os.path.join(ROOT, "harness", "run.py"), pid, tier, str(seed)]
     inp = json.dumps(extra) if extra is not None else ""
     env = dict(os.environ)
+    env["PYVC_MONITOR_HARNESS"] = "1" if monitor else "0"
     env["PYTHONPATH"] = ROOT + os.pathsep + env.get("PYTHONPATH", "")
     env["PYTHONHASHSEED"] = "0"
     try:
@@ -190,7 +191,8 @@ def main(argv):
             if o["status"] == "sat" and o.get("witness"):
                 witnesses.append({"oid": oid, "witness": o["witness"]})
         hres = run_harness(pid, tier, seed, {"witnesses": witnesses, "known": sorted(known_active)},
-                           timeout=cfg.get("harness_timeout", {}).get(tier, 1800))
+                           timeout=cfg.get("harness_timeout", {}).get(tier, 1800),
+                           monitor=(tier == "thorough" and bool(targets) and cfg.get("monitor_harness", True)))
         if "error" in hres:
             undecided.append((f"{pid}:harness", hres["error"][:600]))
             hres = None
@@ -219,13 +221,24 @@ def main(argv):
             subprocess.run([VENV_PY, "-m", "pytest", "-q", "-p", "no:cacheprovider", "-p", "harness.monitor_plugin", "--timeout=900"],
                            cwd=REPO, env=env, capture_output=True, text=True, timeout=1800)
             mon = json.load(open(outp))
-            mine = {t: v for t, v in mon.items() if t in targets}
-            monitoring = {"functions": len(mine), "calls": sum(v["calls"] for v in mine.values()),
-                          "checked": sum(v["checked"] for v in mine.values()),
-                          "fired": {t: v["fired"] for t, v in mine.items() if v["fired"]}}
-            for t, v in mine.items():
-                if v["fired"]:
-                    crash.append(f"contract of {t} fired under the repository's test suite although it is proved: {v['fired'][0]}")
+            # the functions of this property, and the repository functions its contract modules only ASSUME something about
+            assumed_here = {t for t, fs in REG.funs.items() if fs.trusted and not t.startswith("ext:")}
+
+            def summary(stats):
+                mine = {t: v for t, v in stats.items() if t in targets or t in assumed_here}
+                return {"functions": len(mine), "assumed_functions": sum(1 for t in mine if t in assumed_here),
+                        "calls": sum(v["calls"] for v in mine.values()), "checked": sum(v["checked"] for v in mine.values()),
+                        "fired": {t: v["fired"] for t, v in mine.items() if v["fired"]}}
+
+            monitoring = summary(mon)
+            sources = [("the repository's test suite", monitoring)]
+            if hres and hres.get("monitor"):
+                monitoring["under_stand_in_documents"] = summary(hres["monitor"])
+                sources.append(("the documents of the bounded stand-in", monitoring["under_stand_in_documents"]))
+            for where, m in sources:
+                for t, fired in m["fired"].items():
+                    what = "ASSUMED contract" if t in assumed_here else "contract"
+                    crash.append(f"{what} of {t} fired under {where}" + ("" if t in assumed_here else " although it is proved") + f": {fired[0]}")
         except Exception as err:  # noqa: BLE001
             monitoring = {"error": repr(err)[:300]}
 
